@@ -233,7 +233,7 @@ def c14_runtime(tier, seed):
     outdir = os.path.join(BUILD, "runs", "det-" + "-".join(str(k) for k in key))
     os.makedirs(outdir, exist_ok=True)
     per = 8 if tier == "quick" else 100
-    profs = ["crowd", "batch", "multi", "crowd"]
+    profs = ["crowd", "heavy", "multi", "heavy"]
     jobs = [(i, 500000 + i * per, per, 60, seed, outdir, profs[i % 4]) for i in range(NPROC)]
     t = time.time()
     with Pool(NPROC) as p:
